@@ -63,7 +63,12 @@ class LockStep:
                 elif a == "none":
                     resp = cmd.response(None)
                 elif a == "err":
-                    resp = cmd.response(BackwardFrameError(255))
+                    # a framing error is reported with SOME data byte: what two colliding answers happened to leave
+                    # on the bus.  Often the very byte the command carries (two units echoing the same written
+                    # byte), else 255 / 0 / anything - nothing may be read out of a garbled frame
+                    # (a function of the position in THIS run, so that a replay meets the same byte)
+                    eb = (fr & 0xFF, 255, fr & 0xFF, 0, (fr * 7 + n) & 0xFF)[n % 5]
+                    resp = cmd.response(BackwardFrameError(eb))
                 elif a.startswith("byte "):
                     resp = cmd.response(BackwardFrame(int(a[5:])))
                 else:
